@@ -516,3 +516,136 @@ def c25_extract(R):
                     f"_balance_extract takes `{ast.unparse(st.value)}` for the bits below the slice: those are {inner}[{low} - 1 : 0]",
                     construct="_balance_extract: low bits of the operand",
                 )
+
+
+@rule(
+    "C06.filekey",
+    props=("C06", "C18", "C08"),
+    floor=2,
+    family="DEP",
+    desc="an AST is looked up and filed in the hash-cons table under the hash computed from its own contents (_calc_hash of "
+    "the op, args, annotations and length it is built with), never under a hash handed in by the caller: the hash in a "
+    "pickle was computed in another process, possibly from other annotation hashes",
+)
+def c06_filekey(R):
+    tree = R.tree
+    BASEP = "claripy/ast/base.py"
+    m = tree.mod(BASEP)
+    fn = tree.func(BASEP, "Base.__new__")
+    hparam = "hash"
+    n = 0
+    for st in walk_no_nested(fn):
+        if not (isinstance(st, ast.Assign) and isinstance(st.targets[0], ast.Subscript) and "_hash_cache" in ast.unparse(st.targets[0].value)):
+            continue
+        key = st.targets[0].slice
+        n += 1
+        defs = [a.value for a in walk_no_nested(fn) if isinstance(a, ast.Assign) and len(a.targets) == 1 and isinstance(a.targets[0], ast.Name) and isinstance(key, ast.Name) and a.targets[0].id == key.id]
+        computed = bool(defs) and all(isinstance(d, ast.Call) and (dotted(d.func) or "").split(".")[-1] == "_calc_hash" for d in defs)
+        R.check(
+            computed,
+            m,
+            st,
+            "filed under the hash of its own contents",
+            f"Base.__new__ files the object under `{ast.unparse(key)}`, which is "
+            + (f"assigned from {[norm(d)[:60] for d in defs]}" if defs else "not computed here")
+            + ": a hash handed in by the unpickler was computed in another process (annotation hashes depend on the hash seed), "
+            "and two live objects then exist for one expression",
+            construct="Base.__new__: table key not computed from the contents",
+        )
+    R.need(n >= 1, "Base.__new__ no longer files objects in _hash_cache")
+    # the only use of the caller's hash is the shortcut that returns the table's own entry for it
+    uses = [x for x in ast.walk(fn) if isinstance(x, ast.Name) and x.id == hparam and isinstance(x.ctx, ast.Load)]
+    first_if = next((st for st in fn.body if isinstance(st, ast.If)), None)
+    inside = {id(x) for x in ast.walk(first_if.test)} if first_if is not None else set()
+    R.check(
+        all(id(x) in inside for x in uses),
+        m,
+        fn,
+        "the caller's hash is used for the table shortcut only",
+        "Base.__new__ uses the `hash` argument beyond the shortcut that returns the table's entry for it",
+        construct="Base.__new__: uses of the caller's hash",
+    )
+    # replace_dict: the memo maps a visited node to its image - a key is the hash of the node that was visited
+    RPL = "claripy/algorithm/replace.py"
+    mr = tree.mod(RPL)
+    rd = tree.func(RPL, "replace_dict")
+    table = [a.arg for a in rd.args.args][1]
+    k = 0
+    for st in walk_no_nested(rd):
+        if isinstance(st, ast.Assign) and isinstance(st.targets[0], ast.Subscript) and ast.unparse(st.targets[0].value) == table:
+            k += 1
+            key, val = st.targets[0].slice, st.value
+            same = isinstance(key, ast.Call) and isinstance(key.func, ast.Attribute) and key.func.attr == "hash" and isinstance(val, ast.Name) and ast.unparse(key.func.value) != val.id
+            R.check(
+                same,
+                mr,
+                st,
+                "the memo maps a visited node to its image",
+                f"replace_dict writes `{ast.unparse(st)}` into the memo (the caller's dict): the image of a substitution is not a "
+                f"fixed point of it, so a later node equal to that image is left unreplaced - replace((x*3) - ((x+1)*3), x, x+1) "
+                f"returned (x+1)*3 - (x+1)*3",
+                construct="replace_dict: memo entry keyed by the image",
+            )
+    R.need(k >= 2, f"replace_dict: only {k} memo writes found")
+
+
+@rule(
+    "C04.fpedge",
+    props=("C04", "C02", "C03"),
+    floor=2,
+    family="GRD",
+    desc="two numeric edges that are visible as guards: _round_fraction converts its result with float() only under the "
+    "strict fact that it is below 2**(emax+1) (at the boundary float() raises OverflowError); the decoder of Z3's \\u{..} "
+    "escapes accepts as many hex digits as Z3 writes (five, for code points up to 2FFFF)",
+)
+def c04_fpedge(R):
+    tree = R.tree
+    CFPP = "claripy/backends/backend_concrete/fp.py"
+    m = tree.mod(CFPP)
+    fn = tree.func(CFPP, "_round_fraction")
+    n = 0
+    for c in walk_no_nested(fn):
+        if isinstance(c, ast.Call) and isinstance(c.func, ast.Name) and c.func.id == "float" and c.args and isinstance(c.args[0], ast.Name):
+            v = c.args[0].id
+            facts = [re.sub(r"\s+", " ", f) for f in guards.holds(c)]
+            bounded = [f for f in facts if re.fullmatch(rf"{v} < .+", f)]
+            if not any(re.search(rf"\b{v}\b", f) for f in facts):
+                continue
+            n += 1
+            R.check(
+                bool(bounded),
+                m,
+                c,
+                "float() of the rounded result only strictly below the overflow threshold",
+                f"_round_fraction converts `{v}` with float() under {facts}: without the strict bound a result of exactly 2**(emax+1) "
+                f"reaches float() and raises OverflowError out of the AST constructor (fpAdd(RTP, MAX, 1e292))",
+                construct="_round_fraction: float() at the overflow boundary",
+            )
+    R.need(n >= 1, "_round_fraction: the guarded float() conversion was not found")
+    Z3P = "claripy/backends/backend_z3.py"
+    mz = tree.mod(Z3P)
+    pats = [st for st in mz.tree.body if isinstance(st, ast.Assign) and isinstance(st.value, ast.Call) and (dotted(st.value.func) or "") == "re.compile" and st.value.args and isinstance(st.value.args[0], ast.Constant) and "u" in str(st.value.args[0].value)]
+    R.need(len(pats) >= 1, "backend_z3: the escape pattern was not found")
+    import re._parser as rp
+
+    for st in pats:
+        pat = st.value.args[0].value
+        # the largest number of hex digits the braced group accepts
+        most = 0
+        try:
+            for op_, av in rp.parse(pat):
+                if str(op_) == "SUBPATTERN":
+                    for op2, av2 in av[3]:
+                        if str(op2) in ("MAX_REPEAT", "MIN_REPEAT"):
+                            most = max(most, int(av2[1]) if str(av2[1]) != "MAXREPEAT" else 10**6)
+        except Exception:  # noqa: BLE001
+            most = 0
+        R.check(
+            most >= 5,
+            mz,
+            st,
+            "the escape decoder accepts five hex digits",
+            f"the pattern `{pat}` that decodes Z3's \\u{{..}} escapes accepts at most {most} hex digits: Z3 writes five for code points "
+            f"U+10000..U+2FFFF, which then come back as the escape text (StrLen of a returned value is 9 instead of 1)",
+            construct="_Z3_ESCAPE: hex digits accepted",
+        )
